@@ -274,6 +274,11 @@ func genCase(t *rapid.T) Case {
 		// chunks further back (data removed / moved to the front): the seed is the target itself, and what it
 		// offers behind the new end is gone once the target has the indexed length
 		k := gen.Around(t, "alk", 3*int(c.Sizes.Max), 1, int(c.Sizes.Min), int(c.Sizes.Max), 4096)
+		// (random data, content-defined chunks: no chunk occurs twice, so the only place the seed offers a chunk at is
+		// "k bytes further back" - with repetitive data it also offers it at places the assembly has already rewritten,
+		// and an alias seed may then legitimately be found changed)
+		c.Tiling = nil
+		c.Pieces = []gen.Piece{{Kind: "rand", Len: max(blobLen, int(c.Sizes.Max)), Seed: rapid.Uint64().Draw(t, "aldata")}}
 		c.Seeds = []SeedSpec{{Kind: "alias", Edits: []Edit{{At: 0, Del: 0, Ins: k, Seed: rapid.Uint64().Draw(t, "alseed")}}}}
 		c.Action = rapid.SampledFrom([]int{1, 1, 1, 2, 0}).Draw(t, "alaction")
 		c.N = rapid.SampledFrom([]int{1, 1, 1, 2, 4}).Draw(t, "aln")
@@ -671,6 +676,24 @@ func run(c Case) (o hx.Outcome) {
 	// seed offers either lies behind the new end (invalid once the target has its length: skipped / regenerated) or is
 	// copied front to back from further behind in the same file, which a single worker never overwrites before reading it
 	aliasLive := c.AliasLonger && aliasSeed && len(c.Seeds) == 1 && n == 1 && storeComplete && incons == "" && !midRunDone && c.Action%3 != 0
+	if aliasLive { // ... which holds only if no chunk occurs twice, in the blob or in the old version
+		seen := map[desync.ChunkID]bool{}
+		for _, ch := range idx.Chunks {
+			if seen[ch.ID] {
+				aliasLive = false
+			}
+			seen[ch.ID] = true
+		}
+		seen = map[desync.ChunkID]bool{}
+		for _, b := range built {
+			for _, ch := range b.index.Chunks {
+				if seen[ch.ID] {
+					aliasLive = false
+				}
+				seen[ch.ID] = true
+			}
+		}
+	}
 	if aliasLive {
 		o.Class("alias-seed:longer-old-version:liveness-demanded")
 		live = true
